@@ -21,7 +21,8 @@ FIX_COMMITS = ["d6ae502 (passive start-up cancellation: port/listener leak)",
                "ec756de (data connection accepted during session teardown never closed)",
                "732de19 (Throttle.wait helper tasks outlived a cancelled transfer / Server.close())",
                "5b1a18b (LIST line without a name silently dropped as a '.' entry)",
-               "e5905ae (QUIT from a peer that does not read held the session for ever)"]
+               "e5905ae (QUIT from a peer that does not read held the session for ever)",
+               "e0f7c47 (control connection accepted just before Server.close() survived the close)"]
 
 # dimensions added after the fourth wave of seeded changes (plug-in APIs as part of the input space)
 EXTRA = {
